@@ -20,6 +20,7 @@ TRUSTED = [
     'codec hypothesis: pickletools.optimize(pickle.dumps(k, protocol)) is injective on keys (premise pkk_inj) and pickle.load inverts it; multi-element hash-ordered containers are outside it (C13 finding)',
 ]
 ASSUMPTIONS = ['unencodable text and streams are outside the key domain',
+               'JSONDisk: a key json.dumps rejects (TypeError) is outside the key domain of that disk; a disk that accepts such a key owes it an entry of its own',
                "float NaN keys: float('nan') (the canonical quiet NaN; the model has ONE NaN).  It is one key, distinct from every other key (since "
                'the repair of C02-F2 Disk.put pickles it).  A NaN with another sign bit or payload (e.g. inf - inf on x86) has another pickle under '
                'pickle protocols >= 1 and is then a different key: outside the alphabet and the model',
@@ -521,6 +522,155 @@ def concurrent_identity(ctx, res, stats):
     stats['conc_identity_runs'] = runs
 
 
+# ---------------------------------------------------------------------------
+# the same key in another interpreter (hash seeds differ): an entry stored under a key is the entry every other process
+# reaches with an equal key, whichever shard routing the container uses
+
+XPROC_CHILD = r"""
+import sys, json, pickle, os
+sys.path.insert(0, sys.argv[1])
+import diskcache
+from diskcache import core
+assert os.path.realpath(os.path.dirname(os.path.dirname(core.__file__))) == os.path.realpath(sys.argv[1]), core.__file__
+mode, kind, directory, shards = sys.argv[2], sys.argv[3], sys.argv[4], int(sys.argv[5])
+keys = pickle.loads(bytes.fromhex(sys.stdin.read()))
+if kind == 'fanout':
+    c = diskcache.FanoutCache(directory, shards=shards, eviction_policy='none')
+elif kind == 'index':
+    c = diskcache.FanoutCache(directory, shards=shards, eviction_policy='none').index('ix')
+else:
+    c = diskcache.Cache(directory, eviction_policy='none')
+out = {'found': [], 'seed': os.environ.get('PYTHONHASHSEED')}
+if mode == 'write':
+    for i, k in enumerate(keys):
+        c[k] = ('first', i)
+else:
+    for i, k in enumerate(keys):
+        try:
+            out['found'].append(list(c[k]) == ['first', i])
+        except KeyError:
+            out['found'].append(None)
+    for i, k in enumerate(keys):          # storing again under the equal key replaces the entry, it does not add one
+        c[k] = ('second', i)
+    out['again'] = [list(c[k]) == ['second', i] for i, k in enumerate(keys)]
+out['len'] = len(c)
+out['listed'] = sum(1 for _ in c)
+print(json.dumps(out))
+"""
+XPROC_SEEDS = ['0', '1', '4294967295']
+
+
+def xproc_keys(protocol):
+    """pairwise distinct keys under the documented rule, every type of the alphabet (text keys in number)"""
+    out = []
+    for k in alphabet(protocol) + ['key-%d' % i for i in range(12)] + ['ключ', 'k' * 70, ('t', 1), ('t', '1')]:
+        if type(k) is float and k != k:
+            continue                  # NaN: its own regression input
+        if not any(expected_same(k, k2) for k2 in out):
+            out.append(k)
+    return out
+
+
+def xproc_child(seed, mode, kind, directory, shards, keys):
+    import subprocess
+    env = dict(os.environ)
+    env.update({'PYTHONHASHSEED': seed, 'PYTHONPATH': fw.REPO, 'PYTHONDONTWRITEBYTECODE': '1'})
+    p = subprocess.run([fw.PY, '-c', XPROC_CHILD, fw.REPO, mode, kind, directory, str(shards)], input=pickle.dumps(keys, protocol=4).hex(),
+                       stdout=subprocess.PIPE, stderr=subprocess.PIPE, text=True, env=env, timeout=300)
+    if p.returncode != 0:
+        raise RuntimeError('child interpreter failed: ' + p.stderr[-800:])
+    return json.loads(p.stdout.strip().splitlines()[-1])
+
+
+def xproc_case(ctx, kind, shards, keys, seeds):
+    """-> [(sig, desc, case)]"""
+    import shutil
+    d = ctx.scratch('c02xp')
+    problems = []
+    try:
+        w = xproc_child(seeds[0], 'write', kind, d, shards, keys)
+        base = {'check': 'cross_process', 'kind': kind, 'shards': shards, 'seeds': list(seeds), 'keys_pickle_hex': pickle.dumps(keys, protocol=4).hex()}
+        if w['len'] != len(keys) or w['listed'] != len(keys):
+            problems.append(('key_alias_on_store', '%s (%d shards): %d pairwise distinct keys stored, len %d, %d listed' % (kind, shards, len(keys), w['len'], w['listed']), base))
+        for s in seeds[1:]:
+            o = xproc_child(s, 'read', kind, d, shards, keys)
+            for i, k in enumerate(keys):
+                if o['found'][i] is not True:
+                    problems.append(('other_process_misses_key:%s' % type(k).__name__,
+                                     '%s (%d shards): key %s stored by the interpreter with hash seed %s is %s in the one with seed %s' % (
+                                         kind, shards, short(k), seeds[0], 'not found' if o['found'][i] is None else 'found with another value', s),
+                                     dict(base, key=short(k), key_index=i, reader_seed=s)))
+                    break
+            if o['len'] != len(keys) or o['listed'] != len(keys) or not all(o['again']):
+                problems.append(('other_process_duplicates_key', '%s (%d shards): after the interpreter with seed %s stored every key again there are %d entries '
+                                 '(%d listed) for %d keys' % (kind, shards, s, o['len'], o['listed'], len(keys)), dict(base, reader_seed=s)))
+    finally:
+        shutil.rmtree(d, ignore_errors=True)
+    return problems
+
+
+def cross_process_identity(ctx, res, stats, thorough):
+    configs = [('fanout', 4), ('index', 3)] + ([('fanout', 7), ('fanout', 2), ('cache', 1), ('index', 8)] if thorough else [])
+    keys = xproc_keys(pickle.HIGHEST_PROTOCOL)
+    seen = set()
+    for kind, shards in configs:
+        seeds = XPROC_SEEDS if thorough else [XPROC_SEEDS[ctx.seed % 2], XPROC_SEEDS[2]]
+        res.count(['cross-process', kind, shards, tuple(seeds)], nontrivial=True)
+        for sig, desc, case in xproc_case(ctx, kind, shards, keys, seeds):
+            if sig not in seen:
+                seen.add(sig)
+                res.violations.append(fw.Violation(sig, desc, case))
+    stats['cross_process_configs'] = len(configs)
+    stats['cross_process_keys'] = len(keys)
+
+
+# ---------------------------------------------------------------------------
+# JSONDisk and keys JSON cannot represent: such a key is rejected (TypeError: outside the key domain of that disk) or, if a
+# disk accepts it, it is a key like any other: its own entry, never the entry of the text that spells it
+
+def json_foreign_keys():
+    import datetime, decimal, uuid, fractions
+    return [b'abc', b'', frozenset({1}), datetime.date(2020, 1, 2), datetime.datetime(2020, 1, 2, 3, 4, 5), uuid.UUID(int=5),
+            decimal.Decimal('1.5'), fractions.Fraction(1, 3), complex(1, 2), range(3), Ellipsis]
+
+
+def json_unrepresentable(ctx, res, stats):
+    d = ctx.scratch('c02ju')
+    cache = diskcache.Cache(d, disk=diskcache.JSONDisk, eviction_policy='none')
+    rejected = stored = 0
+    seen = set()
+    try:
+        for k in json_foreign_keys():
+            for twin in (str(k), repr(k)):
+                cache.clear()
+                case = {'check': 'json_foreign_key', 'key': repr(k), 'key_pickle_hex': pickle.dumps(k, protocol=4).hex(), 'text_key': twin}
+                res.count(['json-foreign', repr(k), twin], nontrivial=True)
+                try:
+                    cache.set(k, 'K')
+                except (TypeError, ValueError):
+                    rejected += 1
+                    if len(cache) != 0:
+                        res.violations.append(fw.Violation('rejected_key_left_entry', 'JSONDisk rejected key %r and yet the cache holds %d entries' % (k, len(cache)), case))
+                    continue
+                stored += 1
+                cache.set(twin, 'T')
+                n, gk, gt, it = len(cache), cache.get(k), cache.get(twin), list(cache)
+                problems = []
+                if not (n == 2 and gk == 'K' and gt == 'T'):
+                    problems.append(('key_alias:%s:str' % type(k).__name__, 'JSONDisk: key %r and the text key %r are two keys: expected two entries, observed len=%d '
+                                     'get(key)=%r get(text)=%r' % (k, twin, n, gk, gt)))
+                if not (it and type(it[0]) is type(k) and it[0] == k):
+                    problems.append(('iteration_key_altered', 'JSONDisk: key %r stored, iteration returns %r' % (k, it[:2])))
+                for sig, desc in problems:
+                    if sig not in seen:
+                        seen.add(sig)
+                        res.violations.append(fw.Violation(sig, desc, case))
+    finally:
+        cache.close()
+    stats['json_foreign_rejected'] = rejected
+    stats['json_foreign_stored'] = stored
+
+
 def witnesses(res):
     import tempfile, shutil
     d = tempfile.mkdtemp(prefix='c02wit-')
@@ -596,7 +746,11 @@ def run(ctx, big=False):
                 'setdefault, []=} on Cache / FanoutCache (1 and 2 shards) / Index / JSONDisk, with cull_limit 0 and 10, beside three entries under '
                 'other keys (rotating through the alphabet): one expiring in the future with a tag, one whose expiry has passed, one plain.  The result '
                 'is the one of k alone (never the value of another key), the raw rows of the other entries are unchanged (an expired one may be '
-                'culled when cull_limit > 0), and the other keys still answer with their own value, expire_time and tag.')
+                'culled when cull_limit > 0), and the other keys still answer with their own value, expire_time and tag.  '
+                'Other interpreters: ~70 pairwise distinct keys of every type stored through FanoutCache / FanoutCache.index by a fresh interpreter and '
+                'looked up, then stored again, by fresh interpreters with other PYTHONHASHSEED: every key found, no entry added.  JSONDisk with keys '
+                'JSON cannot represent (bytes, frozenset, date, datetime, UUID, Decimal, Fraction, complex, range, Ellipsis): rejected with TypeError, '
+                'or a key of its own beside the text key str(key) / repr(key).')
     stats = {'pairs': 0, 'same': 0}
     coqcases = []
     nan_reachable = nan_key_regression(res)      # first: decides whether NaN can be driven through the operation sweep
@@ -611,6 +765,10 @@ def run(ctx, big=False):
     t0 = _t.time()
     run_bystanders(ctx, res, not ctx.quick, stats, nan_reachable)
     concurrent_identity(ctx, res, stats)
+    cross_process_identity(ctx, res, stats, not ctx.quick)
+    json_unrepresentable(ctx, res, stats)
+    res.extra.update({'cross_process_configs': stats.get('cross_process_configs'), 'cross_process_keys': stats.get('cross_process_keys'),
+                      'json_foreign_keys_rejected': stats.get('json_foreign_rejected'), 'json_foreign_keys_stored': stats.get('json_foreign_stored')})
     res.extra.update({'pairs': stats['pairs'], 'pairs_expected_same': stats['same'], 'exhaustive': thorough,
                       'bystander_scenarios': stats['bystander_scenarios'], 'concurrent_identity_runs': stats.get('conc_identity_runs'), 'bystander_s': round(_t.time() - t0, 1)})
     witnesses(res)
@@ -632,6 +790,31 @@ def replay(payload):
         for v in r.violations:
             print(v.sig, v.desc)
         return ok
+    if case.get('check') == 'cross_process':
+        shutil.rmtree(d, ignore_errors=True)
+        ctx = fw.Ctx('C02', 'quick', 1)
+        try:
+            problems = xproc_case(ctx, case['kind'], case['shards'], pickle.loads(bytes.fromhex(case['keys_pickle_hex'])), case['seeds'])
+        finally:
+            ctx.cleanup()
+        for sig, desc, _c in problems:
+            print(sig, desc)
+        return not problems
+    if case.get('check') == 'json_foreign_key':
+        try:
+            k = pickle.loads(bytes.fromhex(case['key_pickle_hex']))
+            c = diskcache.Cache(d, disk=diskcache.JSONDisk)
+            try:
+                c.set(k, 'K')
+            except (TypeError, ValueError) as e:
+                print('rejected:', repr(e))
+                return len(c) == 0
+            c.set(case['text_key'], 'T')
+            it = list(c)
+            print('len', len(c), 'get(key)', c.get(k), 'get(text)', c.get(case['text_key']), 'iter', it)
+            return len(c) == 2 and c.get(k) == 'K' and c.get(case['text_key']) == 'T' and type(it[0]) is type(k) and it[0] == k
+        finally:
+            shutil.rmtree(d, ignore_errors=True)
     if case.get('check') == 'bystanders':
         clock = instr.Clock(T_STORE)
         try:
